@@ -12,7 +12,8 @@ Proof. exact select_contained. Qed.
 Print Assumptions C14_select_contained.
 
 Theorem C14_select_wellformed :
-  forall seed cfg lv f p, select seed cfg lv f = Ok p -> blen (p_bytes p) * 8 = bits f.
+  forall seed cfg lv f p, select seed cfg lv f = Ok p ->
+    blen (p_bytes p) * 8 = bits f /\ ip_is4 (p_bytes p) = family_eqb f V4.
 Proof. exact select_wellformed. Qed.
 Print Assumptions C14_select_wellformed.
 
@@ -31,7 +32,8 @@ Theorem C14_select_phantom_sound :
     forall p, select_phantom seed cfg tr w = Ok p ->
       exists g c f, In g cfg /\ In c (group_cidrs g) /\ contains c f (be_to_N (p_bytes p)) /\
                     (forall f', tr = Some f' -> f = f') /\
-                    blen (p_bytes p) * 8 = bits f /\ p_rand_port p = rand_port g.
+                    (blen (p_bytes p) * 8 = bits f /\ ip_is4 (p_bytes p) = family_eqb f V4) /\
+                    p_rand_port p = rand_port g.
 Proof. exact select_phantom_sound. Qed.
 Print Assumptions C14_select_phantom_sound.
 
@@ -45,15 +47,18 @@ Theorem C14_selection_sound_parametric :
     (cfg = None -> exists e, select_gen hm src src_seed src_int63 sorter seed cfg lv f = Err e) /\
     forall c ph, cfg = Some c -> select_gen hm src src_seed src_int63 sorter seed cfg lv f = Ok ph ->
       exists g n, In g c /\ In n (group_cidrs g) /\ contains n f (be_to_N (p_bytes ph)) /\
-                  blen (p_bytes ph) * 8 = bits f /\ p_rand_port ph = rand_port g.
+                  (blen (p_bytes ph) * 8 = bits f /\ ip_is4 (p_bytes ph) = family_eqb f V4) /\
+                  p_rand_port ph = rand_port g.
 Proof. exact selection_sound_parametric. Qed.
 Print Assumptions C14_selection_sound_parametric.
 
 (* offset surjectivity: every address of every listed (well-formed, not v4-mapped)
-   network is the result for some id below the total ... *)
+   network -- except an address that net.IP would read as IPv4-mapped -- is the
+   result for some id below the total ... *)
 Theorem C14_offset_surjective :
   forall subnets c rp a,
     In (c, rp) subnets -> wf_cidr c -> v4mapped c = false -> contains c (eff_fam c) a ->
+    a / 2 ^ 32 <> 65535 ->
     exists id ph, id < snd (id_nets subnets 0) /\
                   locate_hkdf (fst (id_nets subnets 0)) id = Ok ph /\
                   be_to_N (p_bytes ph) = a /\ p_rand_port ph = rp /\ blen (p_bytes ph) * 8 = bits (eff_fam c).
